@@ -29,10 +29,10 @@ def replay_gridded(args):
         rng.shuffle(nodes)                       # unsorted input grids
     ov = [1, 2, (2, 3)][idx % 3]
     ovy, ovx = (ov, ov) if isinstance(ov, int) else ov
-    ny, nx = 7, 9
+    ny, nx = [(7, 9), (8, 9), (7, 10), (6, 8)][(idx // 3) % 4]          # odd and even stamp sizes (the reference pixel is (n - 1) / 2)
     data = np.array([epsf(i, j, ny, nx) for (i, j) in nodes])
     xy = [(gx[i - 1], gy[j - 1]) for (i, j) in nodes]
-    sig = {'layout': c['layout'], 'shuffled': bool(idx % 2), 'oversampling': str(ov), 'decoy_instance_first': idx % 3 == 1}
+    sig = {'layout': c['layout'], 'shuffled': bool(idx % 2), 'oversampling': str(ov), 'decoy_instance_first': idx % 3 == 1, 'stamp': [(7, 9), (8, 9), (7, 10), (6, 8)][(idx // 3) % 4]}
     out = []
     try:
         if idx % 3 == 1:
